@@ -68,9 +68,10 @@ def r2_one_derivation(cx):
         out = deep_root(b, t["args"][4])
         seeds = [(ci, ct) for ci, ct in b.calls() if callee_is(ct, "signature::Ed25519KeyPair::from_seed_unchecked")]
         ok = False
+        flows = forward_taint(b, seed_locals=[out["l"]], mut_args=False) if out is not None else set()
         for ci, ct in seeds:
             r = deep_root(b, ct["args"][0])
-            if r is not None and out is not None and r["l"] == out["l"] and ci in b.cfg.reachable_from([bi]):
+            if r is not None and out is not None and (r["l"] == out["l"] or r["l"] in flows) and ci in b.cfg.reachable_from([bi]):
                 ok = True
         cx.check("derived-bytes-are-the-seed:" + b.name, ok, site_of(b, bi), "the 32 derived bytes are handed to Ed25519KeyPair::from_seed_unchecked")
         ln = b.place_ty(out).deref() if out is not None and not out.get("p") else None
